@@ -408,6 +408,13 @@ func (e *Env) RunWriters(cfg WCfg) *WHist {
 	e.Sim.OnStep = h.observe
 	h.End = e.RunToEnd()
 	e.Sim.OnStep = nil
+	for _, c := range h.Calls {
+		e.Note("call %s", c.String())
+	}
+	if h.CloseCalled {
+		e.Note("Close invoked @%d returned @%d", h.CloseInv, h.CloseRet)
+	}
+	e.NoteConn("transport", LiteLog(rig.Conn))
 	return h
 }
 
@@ -674,4 +681,30 @@ func (h *WHist) OracleClosedWritesFail(e *Env, segs []wseg) {
 			e.Violate("nothing-transmitted", cls, "payload of %s, issued after Close returned, reached the transport", c)
 		}
 	}
+}
+
+var evKindNames = []string{"?", "write-enter", "Write", "Writev", "write-error", "Flush", "flush-error", "Close", "Read", "read-error", "read-blocks"}
+
+// LiteLog renders a connection log.
+//
+//go:norace
+func LiteLog(c *simnet.Conn) []ConnEvLite {
+	var out []ConnEvLite
+	for _, ev := range c.Log {
+		if ev.Kind == simnet.EvWriteEnter {
+			continue
+		}
+		w := evKindNames[ev.Kind]
+		switch ev.Kind {
+		case simnet.EvWrite, simnet.EvWritev, simnet.EvWriteErr:
+			w += fmt.Sprintf(" %d bytes at wire offset %d (buffers %v)", ev.N, ev.Off, ev.Bufs)
+		case simnet.EvRead:
+			w += fmt.Sprintf(" %d bytes at stream offset %d", ev.N, ev.Off)
+		}
+		if ev.Err != nil {
+			w += " err=" + ev.Err.Error()
+		}
+		out = append(out, ConnEvLite{ev.Seq, ev.At, ev.Task, w})
+	}
+	return out
 }
